@@ -27,10 +27,13 @@ XSuci1 == [fmt |-> 0, plmn |-> XP1, ri |-> <<0>>, scheme |-> 0, pki |-> 0, out |
 XSuci2 == [fmt |-> 0, plmn |-> XP2, ri |-> <<1, 2, 3, 4>>, scheme |-> 0, pki |-> 255, out |-> <<1, 2, 3, 4, 5, 6, 7, 8, 9>>]
 XSuci3 == [fmt |-> 0, plmn |-> XP1, ri |-> <<9, 9>>, scheme |-> 1, pki |-> 1, out |-> <<171, 205, 1, 255, 0, 16>>]
 XSuci4 == AL!Nai(<<117, 64, 120, 46, 111, 114, 103>>)
+XSuci5 == [XSuci1 EXCEPT !.out = <<9, 8, 7, 6, 5, 4, 3, 2, 1, 0>>]              \* the twin of XSuci1: same PLMN, same length, another MSIN
+XSuci6 == [XSuci3 EXCEPT !.scheme = 12, !.pki = 200]
 XGuti1 == [plmn |-> XP1, amf |-> <<202, 1019, 63>>, tmsi |-> <<0, 0, 0, 1>>]
 XGuti2 == [plmn |-> XP2, amf |-> <<0, 0, 0>>, tmsi |-> <<255, 254, 253, 252>>]
 XGuti3 == [plmn |-> XP2, amf |-> <<1, 1, 1>>, tmsi |-> <<18, 52, 86, 120>>]
 XImei   == [kind |-> "imei", digits |-> <<3, 5, 6, 9, 3, 8, 0, 3, 5, 6, 4, 3, 8, 0, 9>>]
+XImei2  == [kind |-> "imei", digits |-> <<4, 9, 0, 1, 5, 4, 2, 0, 3, 2, 3, 7, 5, 1, 8>>]
 XImeisv == [kind |-> "imeisv", digits |-> <<3, 5, 6, 9, 3, 8, 0, 3, 5, 6, 4, 3, 8, 0, 1, 2>>]
 XTmsi1 == [set |-> 1023, pointer |-> 63, tmsi |-> <<222, 173, 190, 239>>]
 XTmsi2 == [set |-> 1, pointer |-> 0, tmsi |-> <<0, 0, 0, 0>>]
@@ -51,9 +54,9 @@ XcPei(kind, p) == LET k == IF p.kind = "imei" THEN 3 ELSE 5 IN
 XcTmsiId(kind, s) == XcWf(AL!STmsiToWire(s), XcIdX(kind, <<XcE("type", AL!IdentityTypeName(4)),
                                                             XcE("stmsi", <<AL!STmsiToText(s), AL!IdentityTypeName(4)>>)>>))
 XcIdentity(kind) ==
-  << XcSuci(kind, XSuci1), XcSuci(kind, XSuci2), XcSuci(kind, XSuci3), XcSuci(kind, XSuci4),
+  << XcSuci(kind, XSuci1), XcSuci(kind, XSuci2), XcSuci(kind, XSuci3), XcSuci(kind, XSuci4), XcSuci(kind, XSuci5), XcSuci(kind, XSuci6),
      XcGutiId(kind, XGuti1), XcGutiId(kind, XGuti2), XcGutiId(kind, XGuti3),
-     XcPei(kind, XImei), XcPei(kind, XImeisv), XcTmsiId(kind, XTmsi1), XcTmsiId(kind, XTmsi2),
+     XcPei(kind, XImei), XcPei(kind, XImei2), XcPei(kind, XImeisv), XcTmsiId(kind, XTmsi1), XcTmsiId(kind, XTmsi2),
      XcMal(<<0, 0, 0, 0>>),                                      \* no identity
      XcMal(<<6, 1, 2, 3>>), XcMal(<<7, 33, 67, 101, 135>>),      \* unused types of identity
      XcMal(SubSeq(AL!SuciToWire(XSuci1), 1, 6)),                 \* SUCI cut inside the routing indicator
@@ -92,7 +95,7 @@ XSn3 == [sst |-> 2, sd |-> <<>>, hsst |-> <<3>>, hsd |-> <<>>]
 XSn4 == [sst |-> 255, sd |-> <<255, 255, 255>>, hsst |-> <<1>>, hsd |-> <<>>]
 XSn5 == [sst |-> 4, sd |-> <<0, 0, 1>>, hsst |-> <<5>>, hsd |-> <<171, 205, 239>>]
 XcNssaiOf(vs) == XcWf(AL!NssaiEnc(vs), <<XcE("list", [i \in 1..Len(vs) |-> RxMapOf(vs[i])])>>)
-XcNssai == << XcNssaiOf(<<XSn1, XSn2>>), XcNssaiOf(<<XSn1>>), XcNssaiOf(<<XSn2>>), XcNssaiOf(<<XSn3>>), XcNssaiOf(<<XSn4>>),
+XcNssai == << XcNssaiOf(<<XSn1, XSn2>>), XcNssaiOf(<<AL!Plain(3, <<>>), AL!Plain(2, <<10, 11, 12>>)>>), XcNssaiOf(<<XSn1>>), XcNssaiOf(<<XSn2>>), XcNssaiOf(<<XSn3>>), XcNssaiOf(<<XSn4>>),
               XcNssaiOf(<<XSn5>>), XcNssaiOf(<<XSn2, XSn3, XSn4, XSn5>>), XcNssaiOf(XcRep(8, XSn5)), XcNssaiOf(XcRep(8, XSn2)),
               XcMal(<<3, 1, 2, 3>>), XcMal(<<0, 0>>), XcMal(<<9, 1, 2, 3, 4, 5, 6, 7, 8, 9>>), XcMal(<<6, 1, 2, 3, 4, 5, 6>>),
               XcMal(XcCut(AL!NssaiEnc(<<XSn1, XSn2>>), 1)),                  \* last entry one octet short
@@ -109,7 +112,7 @@ XRej1 == [sst |-> 1, sd |-> <<>>, cause |-> AL!CausePlmn]
 XRej2 == [sst |-> 2, sd |-> <<1, 2, 3>>, cause |-> AL!CauseRegArea]
 XcRejOf(rs) == XcWf(AL!RejEnc(rs), <<XcE("raw", AL!RejEnc(rs)),
                                      XcE("list", [i \in 1..Len(rs) |-> [sst |-> rs[i].sst, sd |-> AL!SdText(rs[i].sd), cause |-> rs[i].cause]])>>)
-XcRejNssai == << XcRejOf(<<XRej1, XRej2>>), XcRejOf(<<XRej1>>), XcRejOf(<<XRej2>>), XcRejOf(XcRep(8, XRej2)),
+XcRejNssai == << XcRejOf(<<XRej1, XRej2>>), XcRejOf(<<[XRej1 EXCEPT !.sst = 9, !.cause = 1], [XRej2 EXCEPT !.sd = <<9, 9, 9>>]>>), XcRejOf(<<XRej1>>), XcRejOf(<<XRej2>>), XcRejOf(XcRep(8, XRej2)),
                  XcMal(<<32, 1, 2>>), XcMal(XcCut(AL!RejEnc(<<XRej2>>), 1)), XcMal(<<0, 0>>), XcMal(<<17>>) >>
 
 \* ------------------------------------------------------------------ bitmaps
@@ -121,16 +124,17 @@ XcPsi == << XcPsiOf({1, 5}, 0), XcPsiOf({}, 0), XcPsiOf(0..15, 0), XcPsiOf({0}, 
             XcPsiOf({0, 2, 5, 7, 9, 11, 12, 14}, 0), XcPsiOf({1, 5}, 2), XcPsiOf({8, 15}, 30),
             XcMal(<<255, 255, 255, 255>>), XcMal(<<1>>), XcMal(XcRep(33, 1)) >>
 XcSecOf(c) == XcWf(c, <<XcE("algs", [r \in 1..RxMin(Len(c), 4) |-> XcBits8(c[r])])>>)
-XcSecCap == << XcSecOf(<<240, 112>>), XcSecOf(<<224, 224, 240, 240>>), XcSecOf(<<128, 64, 32>>), XcSecOf(<<1, 2, 4, 8>>),
+XcSecCap == << XcSecOf(<<240, 112>>), XcSecOf(<<128, 192>>), XcSecOf(<<224, 224, 240, 240>>), XcSecOf(<<128, 64, 32>>), XcSecOf(<<1, 2, 4, 8>>),
                XcSecOf(<<255, 255, 255, 255, 0, 0, 0, 0>>), XcSecOf(<<0, 0, 0, 0, 255>>),
                XcMal(<<240>>), XcMal(XcRep(9, 240)) >>
 
 \* ------------------------------------------------------------------ LADN, TAI, TAI lists, service area lists
 XDnn1 == <<105, 110, 116, 101, 114, 110, 101, 116>>
+XDnn1b == <<105, 110, 116, 114, 97, 110, 101, 116>>              \* "intranet": the twin of "internet"
 XDnn2 == <<1>>
 XDnn3 == XcRep(100, 7)
 XcLadnIndOf(ds) == XcWf(AL!LadnIndEnc(ds), <<XcE("dnns", ds)>>)
-XcLadnInd == << XcLadnIndOf(<<XDnn1>>), XcLadnIndOf(<<>>), XcLadnIndOf(<<XDnn1, XDnn2>>), XcLadnIndOf(<<XDnn3>>), XcLadnIndOf(XcRep(8, XDnn3)),
+XcLadnInd == << XcLadnIndOf(<<XDnn1>>), XcLadnIndOf(<<XDnn1b>>), XcLadnIndOf(<<>>), XcLadnIndOf(<<XDnn1, XDnn2>>), XcLadnIndOf(<<XDnn3>>), XcLadnIndOf(XcRep(8, XDnn3)),
                 XcMal(<<0>>), XcMal(<<5, 1, 2>>), XcMal(<<101>> \o XcRep(101, 7)), XcMal(AL!LadnIndEnc(<<XDnn1>>) \o <<0>>),
                 XcMal(AL!LadnIndEnc(<<XDnn2>>) \o <<9>>), XcMal(AL!LadnIndEnc(XcRep(8, XDnn3)) \o <<1>>) >>
 XTac1 == <<0, 0, 1>>
@@ -144,7 +148,8 @@ XTs01 == [i \in 1..4 |-> XT(XP2, 255 + i)]                       \* consecutive,
 XTs10 == <<XT(XP1, 7), XT(XP2, 7)>>
 XTs16 == [i \in 1..16 |-> XT(XP1, 16777200 + i)]
 XcTaiListOf(c, ts) == XcWf(c, <<XcE("raw", c), XcE("list", RxTais(ts))>>)
-XcTaiList == << XcTaiListOf(AL!Partial00(XTs00), XTs00), XcTaiListOf(AL!Partial01(XTs01), XTs01), XcTaiListOf(AL!Partial10(XTs10), XTs10),
+XTs00b == <<XT(XP2, 2), XT(XP2, 6), XT(XP2, 65537)>>
+XcTaiList == << XcTaiListOf(AL!Partial00(XTs00), XTs00), XcTaiListOf(AL!Partial00(XTs00b), XTs00b), XcTaiListOf(AL!Partial01(XTs01), XTs01), XcTaiListOf(AL!Partial10(XTs10), XTs10),
                 XcTaiListOf(AL!Partial00(<<XT(XP2, 9)>>), <<XT(XP2, 9)>>),
                 XcTaiListOf(AL!Partial00(XTs00) \o AL!Partial10(XTs10), XTs00 \o XTs10),
                 XcTaiListOf(AL!Partial01(XTs16), XTs16), XcTaiListOf(AL!Partial00(XTs16), XTs16),
@@ -154,7 +159,7 @@ XcTaiList == << XcTaiListOf(AL!Partial00(XTs00), XTs00), XcTaiListOf(AL!Partial0
                 XcMal(XcSet(AL!Partial00(XTs00), 2, 250)),                    \* PLMN with a non-decimal digit
                 XcMal(XcSet(AL!Partial00(XTs00), 1, 128)), XcMal(XcCut(AL!Partial10(XTs10), 1)), XcMal(<<0, 0, 0, 0, 0, 0>>) >>
 XcSalOf(c, na, ts, wh) == XcWf(c, <<XcE("raw", c), XcE("list", [na |-> na, tais |-> RxTais(ts), whole |-> [i \in 1..Len(wh) |-> AL!PlmnToText(wh[i])]])>>)
-XcSal == << XcSalOf(AL!SalPartial00(0, XTs00), 0, XTs00, <<>>), XcSalOf(AL!SalPartial01(1, XTs01), 1, XTs01, <<>>),
+XcSal == << XcSalOf(AL!SalPartial00(0, XTs00), 0, XTs00, <<>>), XcSalOf(AL!SalPartial00(1, XTs00b), 1, XTs00b, <<>>), XcSalOf(AL!SalPartial01(1, XTs01), 1, XTs01, <<>>),
             XcSalOf(AL!SalPartial10(1, XTs10), 1, XTs10, <<>>), XcSalOf(AL!SalPartial11(XP2), 0, <<>>, <<XP2>>),
             XcSalOf(AL!SalPartial00(0, XTs00) \o AL!SalPartial11(XP2), 0, XTs00, <<XP2>>),
             XcSalOf(AL!SalPartial00(1, XTs16), 1, XTs16, <<>>),
@@ -163,7 +168,8 @@ XcSal == << XcSalOf(AL!SalPartial00(0, XTs00), 0, XTs00, <<>>), XcSalOf(AL!SalPa
 XLadn1 == [dnn |-> XDnn1, tais |-> XTs00]
 XLadn2 == [dnn |-> XDnn2, tais |-> XTs10]
 XcLadnInfoOf(c, ls) == XcWf(c, <<XcE("raw", c), XcE("list", [i \in 1..Len(ls) |-> [dnn |-> ls[i].dnn, tais |-> RxTais(ls[i].tais)]])>>)
-XcLadnInfo == << XcLadnInfoOf(AL!LadnEnc(XLadn1, AL!Partial00(XTs00)), <<XLadn1>>),
+XLadn1b == [dnn |-> XDnn1b, tais |-> XTs00b]
+XcLadnInfo == << XcLadnInfoOf(AL!LadnEnc(XLadn1, AL!Partial00(XTs00)), <<XLadn1>>), XcLadnInfoOf(AL!LadnEnc(XLadn1b, AL!Partial00(XTs00b)), <<XLadn1b>>),
                  XcLadnInfoOf(AL!LadnEnc(XLadn1, AL!Partial00(XTs00)) \o AL!LadnEnc(XLadn2, AL!Partial10(XTs10)), <<XLadn1, XLadn2>>),
                  XcLadnInfoOf(AL!LadnEnc([dnn |-> XDnn3, tais |-> XTs16], AL!Partial00(XTs16)), <<[dnn |-> XDnn3, tais |-> XTs16]>>),
                  XcLadnInfoOf(<<>>, <<>>),
@@ -205,12 +211,13 @@ XcT3512 == << XcT3512Of(0, 6), XcT3512Of(1, 1), XcT3512Of(2, 31), XcT3512Of(3, 0
 
 \* ------------------------------------------------------------------ DNN
 XL_internet == <<105, 110, 116, 101, 114, 110, 101, 116>>
+XL_intranet == <<105, 110, 116, 114, 97, 110, 101, 116>>
 XL_ims == <<105, 109, 115>>
 XL_mnc == <<109, 110, 99, 48, 57, 51>>
 XL_mcc == <<109, 99, 99, 50, 48, 56>>
 XL_gprs == <<103, 112, 114, 115>>
 XcDnnOf(ls) == XcWf(MV!McDnnEncode(ls), <<XcE("text", MV!McJoin(ls))>>)
-XcDnn == << XcDnnOf(<<XL_internet>>), XcDnnOf(<<XL_ims, XL_mnc, XL_mcc, XL_gprs>>), XcDnnOf(<<XcRep(62, 97)>>), XcDnnOf(<<<<97>>, <<98>>, <<99>>>>),
+XcDnn == << XcDnnOf(<<XL_internet>>), XcDnnOf(<<XL_intranet>>), XcDnnOf(<<XL_ims, XL_mnc, XL_mcc, XL_gprs>>), XcDnnOf(<<<<105, 111, 116>>, XL_mcc, XL_mnc, XL_gprs>>), XcDnnOf(<<XcRep(62, 97)>>), XcDnnOf(<<<<97>>, <<98>>, <<99>>>>),
             XcDnnOf(<<XcRep(62, 97), XcRep(36, 98)>>),                        \* exactly 100 octets
             XcMal(<<0>>), XcMal(<<5, 97>>), XcMal(<<3, 97, 98, 99, 0>>), XcMal(<<1, 97, 64>> \o XcRep(20, 98)),
             XcMal(<<>>), XcMal(XcRep(101, 1)) >>
@@ -218,7 +225,7 @@ XcDnn == << XcDnnOf(<<XL_internet>>), XcDnnOf(<<XL_ims, XL_mnc, XL_mcc, XL_gprs>
 \* ------------------------------------------------------------------ extended protocol configuration options
 XU(id, c) == [id |-> id, len |-> Len(c), contents |-> c]
 XcPcoOf(us) == XcWf(PG!Marshal(us), <<XcE("units", us)>>)
-XcPco == << XcPcoOf(<<XU(13, <<>>), XU(10, <<>>)>>), XcPcoOf(<<>>), XcPcoOf(<<XU(13, <<8, 8, 4, 4>>)>>),
+XcPco == << XcPcoOf(<<XU(13, <<>>), XU(10, <<>>)>>), XcPcoOf(<<XU(3, <<>>), XU(13, <<>>)>>), XcPcoOf(<<>>), XcPcoOf(<<XU(13, <<8, 8, 4, 4>>)>>), XcPcoOf(<<XU(12, <<1, 1, 1, 1>>)>>),
             XcPcoOf(<<XU(16, <<5, 220>>), XU(3, XcRep(16, 32)), XU(12, <<10, 0, 0, 1>>)>>), XcPcoOf(<<XU(65535, XcRep(255, 170))>>),
             XcWf(<<0>> \o PG!MarshalUnits(<<XU(13, <<>>)>>), <<XcE("units", <<XU(13, <<>>)>>)>>),   \* the configuration octet is not read by the grammar
             XcMal(<<128, 0>>), XcMal(<<128, 0, 13>>), XcMal(<<128, 0, 13, 4, 8, 8>>), XcMal(PG!Marshal(<<XU(13, <<>>)>>) \o <<0, 3, 9>>),
@@ -241,7 +248,7 @@ XR3 == XRule(3, 5, FALSE, <<XPf(3, 0, <<>>), XPf(9, 0, <<>>)>>, 0, FALSE, 0)
 XR4 == XRule(255, 2, FALSE, <<>>, 0, FALSE, 0)
 XR5 == XRule(7, 3, FALSE, <<XPf(0, 3, <<XC(129, <<1, 2, 3, 4, 5, 6>>), XC(131, <<4095>>), XC(133, <<15>>), XC(135, <<2048>>), XC(96, <<65535, 1>>), XC(112, <<184, 252>>)>>)>>, 1, FALSE, 5)
 XcRulesOf(rs) == XcWf(QG!MarshalRules(rs), <<XcE("rules", rs)>>)
-XcQosRules == << XcRulesOf(<<XR1>>), XcRulesOf(<<XR2>>), XcRulesOf(<<XR1, XR3>>), XcRulesOf(<<XR4>>), XcRulesOf(<<XR5, XR2, XR1>>),
+XcQosRules == << XcRulesOf(<<XR1>>), XcRulesOf(<<XRule(9, 1, FALSE, <<XPf(2, 1, <<XC(1, <<>>)>>)>>, 10, TRUE, 9)>>), XcRulesOf(<<XR2>>), XcRulesOf(<<XR1, XR3>>), XcRulesOf(<<XR4>>), XcRulesOf(<<XR5, XR2, XR1>>),
                  XcMal(XcCut(QG!MarshalRules(<<XR1>>), 1)),                                 \* last octet missing
                  XcMal(XcSet(QG!MarshalRules(<<XR1>>), 7, 2)),                              \* unknown packet filter component type
                  XcMal(XcSet(QG!MarshalRules(<<XR2>>), 3, 1 + QG!MarshalRules(<<XR2>>)[3])),  \* rule length one too large
@@ -255,7 +262,7 @@ XD2 == XDesc(63, 1, <<XPm(1, <<5>>), XPm(2, <<1, 1000>>), XPm(3, <<6, 65535>>), 
 XD3 == XDesc(2, 2, <<>>)
 XD4 == XDesc(0, 3, <<XPm(6, <<0>>)>>)
 XcDescsOf(ds) == XcWf(QG!MarshalDescs(ds), <<XcE("descs", ds)>>)
-XcQosDescs == << XcDescsOf(<<XD1>>), XcDescsOf(<<XD2>>), XcDescsOf(<<XD3>>), XcDescsOf(<<XD1, XD3, XD4>>),
+XcQosDescs == << XcDescsOf(<<XD1>>), XcDescsOf(<<XDesc(5, 1, <<XPm(1, <<5>>)>>)>>), XcDescsOf(<<XD2>>), XcDescsOf(<<XD3>>), XcDescsOf(<<XD1, XD3, XD4>>),
                  XcMal(XcSet(QG!MarshalDescs(<<XD1>>), 4, 9)),                              \* unknown parameter identifier
                  XcMal(XcCut(QG!MarshalDescs(<<XD2>>), 1)),
                  XcMal(XcSet(QG!MarshalDescs(<<XD1>>), 5, 2)),                              \* parameter length 2 for a 5QI
@@ -266,7 +273,7 @@ XcQosDescs == << XcDescsOf(<<XD1>>), XcDescsOf(<<XD2>>), XcDescsOf(<<XD3>>), XcD
 XcNameOf(nm) == LET c == TR!NameContents(nm) IN
                 XcWf(c, <<XcE("fields", <<1, 0, 0, TR!SpareBits(Len(nm))>>), XcE("text", TR!Pack7(nm)), XcE("name", nm)>>)
 XN(n) == [i \in 1..n |-> 64 + i]
-XcName == << XcNameOf(XN(9)), XcNameOf(XN(1)), XcNameOf(XN(7)), XcNameOf(XN(8)), XcNameOf(<<>>), XcNameOf(<<127, 0, 127, 1, 64, 32, 16, 8, 4, 2>>),
+XcName == << XcNameOf(XN(9)), XcNameOf([i \in 1..9 |-> 96 + i]), XcNameOf(XN(1)), XcNameOf(XN(7)), XcNameOf(XN(8)), XcNameOf(<<>>), XcNameOf(<<127, 0, 127, 1, 64, 32, 16, 8, 4, 2>>),
              XcNameOf(XN(26)),
              XcWf(<<152, 0, 65, 0, 66>>, <<XcE("fields", <<1, 1, 1, 0>>), XcE("text", <<0, 65, 0, 66>>)>>),       \* UCS2, add CI: no 7-bit name
              XcMal(<<135>>), XcMal(<<7, 65>>), XcMal(<<132, 65, 66>>), XcMal(<<>>) >>
@@ -290,7 +297,7 @@ XcUt == << XcUtOf(XSt(2026, 10, 1, 19, 30, 59, 8)), XcUtOf(XSt(2000, 2, 29, 0, 0
 XInner1 == <<46, 5, 1, 193, 255, 255>>                                   \* PDU SESSION ESTABLISHMENT REQUEST, mandatory part
 XInner2 == XInner1 \o <<145, 161, 123, 0, 4, 128, 0, 13, 0>>             \* + PDU session type, SSC mode, extended PCO
 XcContOf(c, ok, m) == XcWf(c, <<XcE("raw", c), XcE("inner", [ok |-> ok, msg |-> m])>>)
-XcContainer == << XcContOf(XInner1, TRUE, "PDUSessionEstablishmentRequest"), XcContOf(XInner2, TRUE, "PDUSessionEstablishmentRequest"),
+XcContainer == << XcContOf(XInner1, TRUE, "PDUSessionEstablishmentRequest"), XcContOf(<<46, 6, 2, 193, 0, 1>>, TRUE, "PDUSessionEstablishmentRequest"), XcContOf(XInner2, TRUE, "PDUSessionEstablishmentRequest"),
                   XcContOf(<<46, 1, 1>>, FALSE, ""), XcContOf(<<1, 2, 3, 4>>, FALSE, ""), XcContOf(<<46, 5, 1, 193, 255>>, FALSE, ""),
                   XcWf(XInner1 \o <<3, 3>>, <<XcE("raw", XInner1 \o <<3, 3>>)>>),                  \* unknown identifiers behind the message
                   XcMal(XInner2 \o <<123, 0>>), XcMal(<<>>) >>
